@@ -29,11 +29,11 @@ PASSIVE = {"Source": ("s", "P.vo"), "RLoss": ("s", "vi[0]"), "VLoss": ("s", "vi[
 
 def run(model, rep, tier):
     rep.explanation = EXPLANATION
+    A = rep.attempt
     r = sysrules.roles(model)
-    r1_r2(model, rep, r)
-    r3(model, rep)
-    an = sysrules.solve_anchors(model, r)
-    sysrules.phase_list_rule(model, rep, r, an, labels=("R4-list", "R4"))
+    A(r1_r2, model, rep, r)
+    A(r3, model, rep)
+    A(lambda: sysrules.phase_list_rule(model, rep, r, sysrules.solve_anchors(model, r), labels=("R4-list", "R4")))
 
 
 def strip_array(n):
